@@ -122,7 +122,7 @@ impl Property for C20 {
     }
     fn budget(&self, tier: Tier) -> Budget {
         match tier {
-            Tier::Quick => Budget { release: 1_600, dbg: 0, workers: 8 },
+            Tier::Quick => Budget { release: 8_000, dbg: 0, workers: 8 },
             Tier::Thorough => Budget { release: 6_000, dbg: 0, workers: 16 },
         }
     }
